@@ -16,7 +16,7 @@ import fsic.functions as ff
 
 from .. import spans
 from ..core.observe import observe, canon
-from ..core.runner import Acc, guard, CaseTimeout
+from ..core.runner import Acc, guard, CaseTimeout, robust
 
 ID = 'C16'
 LEVEL = 'exploration'
@@ -50,6 +50,7 @@ def ref_diff(x, d, fill):
     return out
 
 
+@robust()
 def run_helper_case(case):
     n, k, fill, fn, dt = case['n'], case['k'], case['fill'], case['fn'], case['dtype']
     fill = float('nan') if fill == 'nan' else fill
@@ -132,6 +133,7 @@ def total(a):
     return float(np.sum(a))
 
 
+@robust(1, "?")
 def run_eval_case(case):
     kind, tpl, combo = case['span'], TEMPLATES[case['tpl']], case['sites']
     c, labels = make_container(kind)
@@ -171,6 +173,7 @@ def run_eval_case(case):
     return out, expr
 
 
+@robust()
 def run_names_case(case):
     kind = case['span']
     c, labels = make_container(kind)
